@@ -59,6 +59,19 @@ pub enum Op {
     SrvConnect(u16),
     SrvAccept(u16),
     SrvDrop(u16),
+    /// move a sender handle to another thread, which keeps it until released
+    ThreadHold(u16),
+    /// move a sender handle to a forked process, which keeps it until released (OS builds)
+    ForkHold(u16),
+    /// the remote holder drops its handle (thread joins / process exits)
+    Release(u16),
+    /// drop a sender handle on a helper thread instead of the program's thread
+    DropTxElsewhere(u16),
+}
+
+pub enum Remote {
+    Thread { chan: usize, go: std::sync::mpsc::Sender<()>, jh: std::thread::JoinHandle<()> },
+    Process { chan: usize, pid: libc::pid_t, pipe_w: std::fs::File },
 }
 
 pub enum RealTx {
@@ -130,6 +143,7 @@ pub struct Stats {
     pub receiver_transfers: u32,
     pub region_transfers: u32,
     pub kinds_in_one_msg: u32,
+    pub max_items_in_one_msg: u32,
     pub disconnects_seen: u32,
     pub empties_seen: u32,
     pub multi_packet: u32,
@@ -140,6 +154,10 @@ pub struct Stats {
     pub sends_to_in_transit_rx: u32,
     pub backlog_transferred: u32,
     pub zero_held_senders_with_in_transit: u32,
+    pub remote_holds: u32,
+    pub fork_holds: u32,
+    pub rich_sends_err: u32,
+    pub delivered_after_transit: u32,
 }
 
 pub struct Caps {
@@ -154,11 +172,13 @@ pub struct World {
     pub regions: Vec<RegH>,
     pub sets: Vec<SetH>,
     pub servers: Vec<SrvH>,
+    pub remotes: Vec<Remote>,
     next_tag: u32,
     pub trace: Vec<String>,
     pub stats: Stats,
     caps: Caps,
     max_chans: usize,
+    max_items: usize,
 }
 
 const BUDGET: usize = 90 * 1024;
@@ -282,16 +302,23 @@ impl World {
             regions: vec![],
             sets: vec![],
             servers: vec![],
+            remotes: vec![],
             next_tag: 1,
             trace: vec![],
             stats: Stats::default(),
             caps: Caps { f1, f },
             max_chans: 6,
+            max_items: 8,
         }
     }
 
     pub fn with_max_chans(mut self, n: usize) -> World {
         self.max_chans = n;
+        self
+    }
+
+    pub fn with_max_items(mut self, n: usize) -> World {
+        self.max_items = n;
         self
     }
 
@@ -427,6 +454,95 @@ impl World {
                 self.kill_rx(h.chan);
                 drop(h.real);
                 self.trace.push(format!("droprx{}", h.chan));
+                Ok(())
+            },
+            Op::DropTxElsewhere(s) => {
+                if self.txs.is_empty() {
+                    return self.skip("droptx-elsewhere");
+                }
+                let i = pick(*s, self.txs.len());
+                let h = self.txs.remove(i);
+                self.chans[h.chan].senders -= 1;
+                if self.chans[h.chan].senders > 0 && !self.txs.iter().any(|t| t.chan == h.chan) {
+                    self.stats.zero_held_senders_with_in_transit += 1;
+                }
+                let real = h.real;
+                std::thread::spawn(move || drop(real)).join().map_err(|_| Failure::new("drop:panicked", "dropping a sender on another thread panicked"))?;
+                self.trace.push(format!("droptx{}", h.chan));
+                Ok(())
+            },
+            Op::ThreadHold(s) => {
+                if self.txs.is_empty() || self.remotes.len() >= 4 {
+                    return self.skip("threadhold");
+                }
+                let i = pick(*s, self.txs.len());
+                let h = self.txs.remove(i);
+                let (go, wait) = std::sync::mpsc::channel::<()>();
+                let real = h.real;
+                let jh = std::thread::spawn(move || {
+                    let _ = wait.recv();
+                    drop(real);
+                });
+                self.remotes.push(Remote::Thread { chan: h.chan, go, jh });
+                self.stats.remote_holds += 1;
+                self.trace.push(format!("hold{}", h.chan));
+                Ok(())
+            },
+            Op::ForkHold(s) => {
+                if cfg!(feature = "inproc") {
+                    // a forked copy of an in-process channel is a different channel: thread instead
+                    return self.step(&Op::ThreadHold(*s));
+                }
+                if self.txs.is_empty() || self.remotes.len() >= 4 || !self.servers.is_empty() || self.remotes.iter().any(|r| matches!(r, Remote::Thread { .. })) {
+                    return self.skip("forkhold");
+                }
+                let i = pick(*s, self.txs.len());
+                let h = self.txs.remove(i);
+                let mut fds = [0i32; 2];
+                if unsafe { libc::pipe2(fds.as_mut_ptr(), libc::O_CLOEXEC) } != 0 {
+                    return Err(Failure::inconclusive("pipe2 failed"));
+                }
+                let pid = unsafe { libc::fork() };
+                if pid < 0 {
+                    return Err(Failure::inconclusive("fork failed"));
+                }
+                if pid == 0 {
+                    // child: keep exactly this one handle, let go of every inherited copy
+                    unsafe { libc::prctl(libc::PR_SET_PDEATHSIG, libc::SIGKILL) };
+                    crate::interpose::raw_close(fds[1]);
+                    let keep = h.real;
+                    self.txs.clear();
+                    self.rxs.clear();
+                    self.regions.clear();
+                    self.sets.clear();
+                    self.remotes.clear();
+                    let mut b = [0u8; 1];
+                    loop {
+                        let n = unsafe { libc::read(fds[0], b.as_mut_ptr() as *mut libc::c_void, 1) };
+                        if n >= 0 || unsafe { *libc::__errno_location() } != libc::EINTR {
+                            break;
+                        }
+                    }
+                    drop(keep);
+                    unsafe { libc::_exit(0) };
+                }
+                crate::interpose::raw_close(fds[0]);
+                let chan = h.chan;
+                drop(h.real); // the parent's copy of the moved handle
+                use std::os::unix::io::FromRawFd;
+                self.remotes.push(Remote::Process { chan, pid, pipe_w: unsafe { std::fs::File::from_raw_fd(fds[1]) } });
+                self.stats.remote_holds += 1;
+                self.stats.fork_holds += 1;
+                self.trace.push(format!("hold{}", chan));
+                Ok(())
+            },
+            Op::Release(s) => {
+                if self.remotes.is_empty() {
+                    return self.skip("release");
+                }
+                let i = pick(*s, self.remotes.len());
+                let chan = self.release_remote(i)?;
+                self.trace.push(format!("release{}", chan));
                 Ok(())
             },
             Op::Send { tx, size, tree } => self.op_send(*tx, size, tree),
@@ -588,11 +704,11 @@ impl World {
             return self.after_send(c, tag, alive, r.map_err(|e| e.to_string()), format!("{:x}", payload::fnv64(&data)), vec![], cost, len > self.caps.f1);
         }
         // typed: bind the endpoint leaves, then pad to the requested serialised size
-        let max_items = 8;
+        let max_items = self.max_items;
         let mut binder = WorldBinder { w: self, target: c, items: vec![], budget_items: max_items, kinds: 0 };
         let inner = node::build(tree, &mut binder);
         let items = std::mem::take(&mut binder.items);
-        let kinds = binder.kinds.count_ones();
+        let kinds = (binder.kinds & 0x3f).count_ones();
         // the sending handle may have moved (a moved handle earlier in `txs` shifts indices): find it again
         let i = match self.txs.iter().position(|t| t.chan == c) {
             Some(i) => i,
@@ -621,6 +737,7 @@ impl World {
                 ItemM::Shm { .. } => self.stats.region_transfers += 1,
             }
         }
+        self.stats.max_items_in_one_msg = self.stats.max_items_in_one_msg.max(items.len() as u32);
         if kinds >= 2 && items.iter().any(|i| matches!(i, ItemM::Shm { .. })) {
             self.stats.kinds_in_one_msg += 1;
         }
@@ -658,6 +775,9 @@ impl World {
         } else {
             if r.is_ok() {
                 wfail!("send:ok-on-dead-channel", "send #{} on channel {} whose receiver no longer exists anywhere returned Ok", tag, c);
+            }
+            if multi || !items.is_empty() {
+                self.stats.rich_sends_err += 1;
             }
             self.destroy_items(&items);
             self.stats.sends_err += 1;
@@ -975,6 +1095,44 @@ impl World {
         }
     }
 
+    fn release_remote(&mut self, i: usize) -> Result<usize, Failure> {
+        let r = self.remotes.remove(i);
+        let chan = match r {
+            Remote::Thread { chan, go, jh } => {
+                let _ = go.send(());
+                jh.join().map_err(|_| Failure::new("drop:panicked", "dropping a sender on its holder thread panicked"))?;
+                chan
+            },
+            Remote::Process { chan, pid, pipe_w } => {
+                use std::io::Write;
+                let mut p = pipe_w;
+                let _ = p.write_all(b"x");
+                drop(p);
+                let mut st = 0;
+                loop {
+                    let r = unsafe { libc::waitpid(pid, &mut st, 0) };
+                    if r == pid || (r < 0 && unsafe { *libc::__errno_location() } != libc::EINTR) {
+                        break;
+                    }
+                }
+                if !(libc::WIFEXITED(st) && libc::WEXITSTATUS(st) == 0) {
+                    return Err(Failure::new("holder:abnormal-exit", format!("process holding a sender of channel {} ended with wait status {:#x}", chan, st)));
+                }
+                chan
+            },
+        };
+        self.chans[chan].senders -= 1;
+        Ok(chan)
+    }
+
+    /// Let every remote holder go (end of program).
+    pub fn release_all(&mut self) -> Result<(), Failure> {
+        while !self.remotes.is_empty() {
+            self.release_remote(0)?;
+        }
+        Ok(())
+    }
+
     /// Identity probes (3.4): a fresh message through every held sender, then drain every held
     /// receiver and set; the model predicts where each nonce comes out.
     pub fn probe_all(&mut self) -> Result<(), Failure> {
@@ -1092,36 +1250,58 @@ pub fn msg_tree() -> BoxedStrategy<NP> {
 }
 
 /// Operation strategy; `w` = relative weights of the groups
-/// [create, clone, droptx, droprx, send, recv, region, set, server]
-pub fn op_strategy(w: [u32; 9]) -> BoxedStrategy<Op> {
-    prop_oneof![
-        w[0] * 3 => Just(Op::NewChan),
-        w[0] => Just(Op::NewBytesChan),
-        w[1] => any::<u16>().prop_map(Op::CloneTx),
-        w[2] => any::<u16>().prop_map(Op::DropTx),
-        w[3] => any::<u16>().prop_map(Op::DropRx),
-        w[4] => (any::<u16>(), size_strategy(), msg_tree()).prop_map(|(tx, size, tree)| Op::Send { tx, size, tree }),
-        w[5] => (any::<u16>(), 0u8..4).prop_map(|(rx, mode)| Op::Recv { rx, mode }),
-        w[6] => prop_oneof![
-            (0u32..9000, any::<u64>(), proptest::option::weighted(0.3, any::<u8>())).prop_map(|(len, seed, fill)| Op::RegionNew { len, seed, fill }),
-            any::<u16>().prop_map(Op::RegionClone),
-            any::<u16>().prop_map(Op::RegionDrop),
-            any::<u16>().prop_map(Op::RegionCheck),
-        ],
-        w[7] => prop_oneof![
-            1 => Just(Op::SetNew),
-            3 => (any::<u16>(), any::<u16>()).prop_map(|(set, rx)| Op::SetAdd { set, rx }),
-            4 => any::<u16>().prop_map(Op::SetSelect),
-            1 => any::<u16>().prop_map(Op::SetDrop),
-        ],
-        w[8] => prop_oneof![
-            2 => Just(Op::SrvNew),
-            3 => any::<u16>().prop_map(Op::SrvConnect),
-            3 => any::<u16>().prop_map(Op::SrvAccept),
-            1 => any::<u16>().prop_map(Op::SrvDrop),
-        ],
-    ]
-    .boxed()
+/// [create, clone, droptx, droprx, send, recv, region, set, server, remote holders]
+pub fn op_strategy(w: [u32; 10]) -> BoxedStrategy<Op> {
+    let all: Vec<(u32, BoxedStrategy<Op>)> = vec![
+        (w[0] * 3, Just(Op::NewChan).boxed()),
+        (w[0], Just(Op::NewBytesChan).boxed()),
+        (w[1], any::<u16>().prop_map(Op::CloneTx).boxed()),
+        (w[2], any::<u16>().prop_map(Op::DropTx).boxed()),
+        (w[3], any::<u16>().prop_map(Op::DropRx).boxed()),
+        (w[4], (any::<u16>(), size_strategy(), msg_tree()).prop_map(|(tx, size, tree)| Op::Send { tx, size, tree }).boxed()),
+        (w[5], (any::<u16>(), 0u8..4).prop_map(|(rx, mode)| Op::Recv { rx, mode }).boxed()),
+        (
+            w[6],
+            prop_oneof![
+                (0u32..9000, any::<u64>(), proptest::option::weighted(0.3, any::<u8>())).prop_map(|(len, seed, fill)| Op::RegionNew { len, seed, fill }),
+                any::<u16>().prop_map(Op::RegionClone),
+                any::<u16>().prop_map(Op::RegionDrop),
+                any::<u16>().prop_map(Op::RegionCheck),
+            ]
+            .boxed(),
+        ),
+        (
+            w[7],
+            prop_oneof![
+                1 => Just(Op::SetNew),
+                3 => (any::<u16>(), any::<u16>()).prop_map(|(set, rx)| Op::SetAdd { set, rx }),
+                4 => any::<u16>().prop_map(Op::SetSelect),
+                1 => any::<u16>().prop_map(Op::SetDrop),
+            ]
+            .boxed(),
+        ),
+        (
+            w[8],
+            prop_oneof![
+                2 => Just(Op::SrvNew),
+                3 => any::<u16>().prop_map(Op::SrvConnect),
+                3 => any::<u16>().prop_map(Op::SrvAccept),
+                1 => any::<u16>().prop_map(Op::SrvDrop),
+            ]
+            .boxed(),
+        ),
+        (
+            w[9],
+            prop_oneof![
+                2 => any::<u16>().prop_map(Op::ThreadHold),
+                2 => any::<u16>().prop_map(Op::ForkHold),
+                3 => any::<u16>().prop_map(Op::Release),
+                2 => any::<u16>().prop_map(Op::DropTxElsewhere),
+            ]
+            .boxed(),
+        ),
+    ];
+    proptest::strategy::Union::new_weighted(all.into_iter().filter(|(w, _)| *w > 0).collect()).boxed()
 }
 
 const LAST: u16 = 0xffff;
@@ -1174,7 +1354,7 @@ fn snippet() -> BoxedStrategy<Vec<Op>> {
 }
 
 /// Program strategy: single operations and snippets, flattened and cut to `max_len` operations.
-pub fn program_strategy(w: [u32; 9], snippet_weight: u32, max_len: usize) -> BoxedStrategy<Vec<Op>> {
+pub fn program_strategy(w: [u32; 10], snippet_weight: u32, max_len: usize) -> BoxedStrategy<Vec<Op>> {
     let chunk = prop_oneof![
         12 => op_strategy(w).prop_map(|o| vec![o]),
         snippet_weight => snippet(),
